@@ -403,3 +403,44 @@ def compress_inputs(rng, tier, codec):
             x = b"".join(parts)[:n]
         ins.append((f"mix{n}", x))
     return ins, big
+
+
+# --------------------------------------------------------------------------- running
+
+def san_summary(err):
+    """the informative lines of a sanitizer report"""
+    keep = [l.strip() for l in (err or "").splitlines()
+            if ("ERROR: AddressSanitizer" in l or "SUMMARY:" in l or "runtime error" in l or l.strip().startswith("#0 ")
+                or l.strip().startswith("#1 ") or "is located" in l or "LeakSanitizer" in l)]
+    return " | ".join(keep[:8]) if keep else (err or "")[-600:]
+
+
+def run_all(vlib, exe, lines, timeout=900, max_deaths=12):
+    """run_sharded, but when a shard dies on a case the remaining cases of that shard are run again
+    (so one crashing input does not hide the results of the others).  Returns (outs, deaths) where
+    deaths = [(case line, returncode, report summary)] and the dead case's output is 'FAULT died'."""
+    outs, probs = vlib.run_sharded(exe, lines, timeout=timeout)
+    deaths = []
+    pending = list(probs)
+    budget = max_deaths
+    while pending and budget > 0:
+        budget -= 1
+        pr = pending.pop(0)
+        case = pr[3]
+        deaths.append((case, pr[1], san_summary(pr[2])))
+        if case is None:
+            continue
+        # position of the killer: first 'FAULT died' whose line equals case
+        try:
+            k = next(i for i, (l, o) in enumerate(zip(lines, outs)) if o == "FAULT died" and l == case)
+        except StopIteration:
+            continue
+        j = k + 1
+        while j < len(lines) and outs[j] == "FAULT died":
+            j += 1
+        rest = lines[k + 1:j]
+        if rest:
+            o2, p2 = vlib.run_sharded(exe, rest, timeout=timeout)
+            outs[k + 1:j] = o2
+            pending += p2
+    return outs, deaths
